@@ -218,6 +218,11 @@ func init() {
 	c02 = append(c02, HarnessSpec{Pkg: ix, Func: "ZZ_C02_Search", Solver: "cvc5", Desc: "time variable of a sub-query",
 		Quick:  tier(map[string]int{"queryfrom": 10, "queryforms": 1, "sortings": 2, "restricts": 1, "indexfiles": 2, "limits": 1, "skips": 1}),
 		Bounds: "`@sub:id:S ftime:@sub:ftime@+D:` with symbolic S and D over 1..2 index files with different reference times: the sub-query's stream may live in the other file"})
+	for k, n := range []string{"id", "cbytes", "sbytes", "ftime", "ltime", "chost", "shost", "cport", "sport"} {
+		c02 = append(c02, HarnessSpec{Pkg: ix, Func: "ZZ_C02_Comparators", Solver: "cvc5", Desc: "sort comparator " + n,
+			Quick:  tier(map[string]int{"key": k, "streams": 2}),
+			Bounds: "the comparator registered for the sort key, on two streams of the same or of different index files (reference seconds symbolic in 1.6e9..1.8e9, host tables of 2 symbolic IPv4/IPv6 hosts each, numeric fields symbolic, packet time offsets from 7 values around the second boundary): less(a,b) <=> key(a) < key(b), irreflexive; every registered sort key has an entry"})
+	}
 	registry["C02"] = CheckSpec{Property: "C02", Harnesses: c02,
 		Assumptions: []string{"queries are given in normal form (ConditionsSet built directly; the parser side is C03)", "stream population: fixed concrete streams written by the real writer; what varies symbolically are the query constants, tag match bits and the id restriction", "oracle: filter by the harness's own reading of the query on its own stream records, rank by the sort key with ties in any order, page, more <=> matches beyond the page"},
 		Outside: []string{"grouping", "sub-queries feeding variables other than the one time-variable form", "data conditions (C04)", "more than 4 streams / 2 files", "host conditions"},
@@ -266,9 +271,9 @@ func init() {
 	c06.Assumptions = append(c06.Assumptions, "query side: the meaning of a search while streams are pending = decided streams by their stored bit, pending streams by the tag's definition (InlineTagFilters); evaluated with the C03 condition evaluator")
 	registry["C06"] = c06
 
-	cnv := HarnessSpec{Pkg: mg, Func: "ZZ_C16_Converters", Quick: &Tier{Params: map[string]int{"realjobs": 1, "scenarios": 9}, Samples: 8},
-		Thorough: &Tier{Params: map[string]int{"realjobs": 1, "scenarios": 9, "payloadmax": 6, "thresholdmax": 12}, Samples: 16},
-		Bounds: "nine job-level schedules with one converter: attached after imports, then an import that extends a converted stream and adds a matching one; attached before the first import; an import extending a stream while the converter job about to convert it is in flight; attached to a second tag while its job for the first is in flight; detached, then an import with a matching stream; converter restarted; an out-of-order capture rebuilding a converted stream; output requested through a view older than an import; the definition of a tag with the converter attached edited. Payload sizes and the data tag's threshold symbolic"}
+	cnv := HarnessSpec{Pkg: mg, Func: "ZZ_C16_Converters", Quick: &Tier{Params: map[string]int{"realjobs": 1, "scenarios": 10}, Samples: 10},
+		Thorough: &Tier{Params: map[string]int{"realjobs": 1, "scenarios": 10, "payloadmax": 6, "thresholdmax": 12}, Samples: 16},
+		Bounds: "ten job-level schedules with one converter: attached after imports, then an import that extends a converted stream and adds a matching one; attached before the first import; an import extending a stream while the converter job about to convert it is in flight; attached to a second tag while its job for the first is in flight; detached, then an import with a matching stream; converter restarted; an out-of-order capture rebuilding a converted stream; output requested through a view older than an import; the definition of a tag with the converter attached edited; output of a converter attached to no tag requested on demand, then an import extending that stream, then the converter attached. Payload sizes and the data tag's threshold symbolic"}
 	registry["C16"] = CheckSpec{Property: "C16", Harnesses: []HarnessSpec{cnv},
 		Assumptions: append([]string{"the converter process (os/exec, pipes, JSON line protocol) is replaced in the engine by a scripted converter computing the same function of the stream's payload (one client chunk: 'A' + client bytes mod 26) as the python executable the native replay really starts through the real process layer", "the converter is registered as addConverter does (NewCache + the two maps) without the executable/regexp checks"}, svcAssume...),
 		Outside: []string{"more than one converter", "converter processes that fail, time out or answer malformed lines", "converter restarts racing with a running job", "data filters with a converter selector (C04 part B covers the filter over a converter-style source)", "interleavings below job granularity"}}
@@ -302,8 +307,10 @@ func init() {
 			{Pkg: cv, Func: "ZZ_C15_Cache", Desc: "chunk lists that may be empty, 3 operations", Quick: tier(map[string]int{"ops": 3, "chunks": 1, "chunklen": 1, "ctypes": 1, "dts": 1, "emptylist": 1}), Thorough: tier(map[string]int{"ops": 4, "chunks": 1, "chunklen": 1, "ctypes": 1, "dts": 1, "emptylist": 1, "forcecompaction": 1}),
 				Bounds: "as above with chunk lists of 0..1 chunks: an empty converter output is stored, replaces older output and survives a reopen"},
 			{Pkg: cv, Func: "ZZ_C15_Cut", Quick: tier(map[string]int{"chunks": 1, "chunklen": 2, "ctypes": 2, "dts": 2}), Bounds: "converter cache cut inside its last record (shared with C15)"},
-			{Pkg: mg, Func: "ZZ_C12_Restart", Quick: &Tier{Params: map[string]int{"realjobs": 1, "gates": 9}, Samples: 10}, Thorough: &Tier{Params: map[string]int{"realjobs": 1, "gates": 9, "payloadmax": 6, "thresholdmax": 12}, Samples: 20}, Bounds: "a service with 3 tags and 2..3 imported captures is shut down or killed at one of 9 job-level gates (settled; tagging job in flight with a later import completed; between an import's body and completion; inside the body with the index cut at 4 positions; merge body between an import's body and completion, killed / shut down later; inside a state save with the new file cut at 4 positions; while the inputs of a finished merge were being deleted; between writing the new state file and removing the old one); the real manager.New starts from the directories left behind, settles, optionally imports one more capture; payload sizes and the data tag's threshold symbolic"},
-			{Pkg: mg, Func: "ZZ_C12_Restart", Desc: "with a mark and a tag referencing it", Quick: &Tier{Params: map[string]int{"realjobs": 1, "gates": 9, "marks": 1}, Samples: 10},
+			{Pkg: mg, Func: "ZZ_C12_Restart", Quick: &Tier{Params: map[string]int{"realjobs": 1, "gates": 10}, Samples: 10}, Thorough: &Tier{Params: map[string]int{"realjobs": 1, "gates": 10, "payloadmax": 6, "thresholdmax": 12}, Samples: 20}, Bounds: "a service with 3 tags and 2..3 imported captures is shut down or killed at one of 9 job-level gates (settled; tagging job in flight with a later import completed; between an import's body and completion; inside the body with the index cut at 4 positions; merge body between an import's body and completion, killed / shut down later; inside a state save with the new file cut at 4 positions; while the inputs of a finished merge were being deleted; between writing the new state file and removing the old one); the real manager.New starts from the directories left behind, settles, optionally imports one more capture; payload sizes and the data tag's threshold symbolic"},
+			{Pkg: mg, Func: "ZZ_C12_Restart", Desc: "endpoint and webhook across two restarts", Quick: &Tier{Params: map[string]int{"realjobs": 1, "gates": 10, "gatefrom": 9, "onlymarks": 1}, Samples: 4},
+				Bounds: "a service with a pcap-over-ip endpoint, a webhook and a mark (no tag that is re-evaluated after a restart) is killed after a capture file was stored and before its import started; restarted (the capture directory lists a file the state file does not), shut down cleanly, restarted again: tags, endpoint and webhook are shown in both lives. The same gate also runs with the three regular tags in the entries above"},
+			{Pkg: mg, Func: "ZZ_C12_Restart", Desc: "with a mark and a tag referencing it", Quick: &Tier{Params: map[string]int{"realjobs": 1, "gates": 10, "marks": 1}, Samples: 10},
 				Bounds: "the same nine gates with two more acknowledged tags: mark/m (id list) and tag/viam = mark:m"},
 		},
 		Assumptions: []string{"FILE-FORMAT SLICE ONLY: a half-written index, snapshot or cache file is modelled as a prefix of the complete file (cut at a byte) or as the pre-Finalize content; completed system calls persist", "NOT covered: the state file (JSON via reflection), manager.New's directory scan and tag re-convergence after restart, crash points between individual system calls of a running service"},
